@@ -12,6 +12,7 @@ result, never BLOCKED, and after a failure every later call answers with an inte
 """
 import json
 import re
+from concurrent.futures import ThreadPoolExecutor
 
 from vlib import core
 from gen import host as H
@@ -173,8 +174,19 @@ def shrink(hist, still_fails):
     return cur
 
 
+def go_parallel(subcmd, lines, workers=8, timeout=900):
+    """core.go_lines over several harness processes (the VM's Wait sleeps 5 ms per idle round)."""
+    if len(lines) < 2 * workers:
+        return core.go_lines(subcmd, lines, timeout=timeout)
+    step = (len(lines) + workers - 1) // workers
+    chunks = [lines[i:i + step] for i in range(0, len(lines), step)]
+    with ThreadPoolExecutor(max_workers=workers) as ex:
+        outs = list(ex.map(lambda c: core.go_lines(subcmd, c, timeout=timeout), chunks))
+    return [l for o in outs for l in o]
+
+
 def run_batch(ctx, hists, stage, have_model):
-    go = core.go_lines("host", [H.host_line(h) for h in hists], timeout=900)
+    go = go_parallel("host", [H.host_line(h) for h in hists])
     model = core.lean_lines([H.model_line(H.expected(h)) for h in hists]) if have_model else [None] * len(hists)
     ties = 0
     for h, g, m in zip(hists, go, model):
